@@ -33,7 +33,7 @@ RULE = (
     "pairs, bootstrap off or on with quantile/bc/bca, nb_samples 2-60, samplers identity / recording wrapper around built-in "
     "configurations incl. by_group / built-in strings, alpha in [0.01,0.5]) with 0-3 planned draw faults and reseeds. "
     "Non-trivial: every run; distinct = distinct abstract trace signatures."
-    "Later rounds added: wide frames (150-320 rows, 60-140 thresholds), tuple thresholds, bool / missing labels, float32/float16/unsigned score columns, categorical and string dtypes, "
+     " Later rounds added: wide frames (150-320 rows, 60-140 thresholds), tuple thresholds, bool / missing labels, float32/float16/unsigned score columns, categorical and string dtypes, "
     "group columns in another order / a subset, callers' own column names, gaps in unrelated columns, omitted optional arguments, whitespace-variant values, raising and re-entrant samplers, alpha up to 0.95."
 )
 COMPONENTS = {
